@@ -76,11 +76,15 @@ func ProfileFor(name string) Profile {
 		p.Faults[FJoinExport] = 0.12
 	case "messages": // C18
 		p.WInvalid, p.WAdversary = 0.5, 0.1
-		p.Faults[FBankFail] = 0.08
+		p.Faults[FBankFail] = 0.2
 	case "concurrent": // C19
 		p.Concurrent, p.MaxAuctions, p.TxPerBlock = true, 6, 5
 	case "hooks": // C17 background
 		p.Listeners = 2
+	case "cli": // C20: histories the command line can express
+		p.MaxAuctions, p.Vesting, p.Blocks, p.TxPerBlock = 3, [2]int{1, 1}, [2]int{6, 14}, 2
+		p.Faults = map[string]float64{}
+		p.WInvalid, p.WForeign, p.WAdversary = 0.1, 0.02, 0.0
 	case "extreme": // C07
 		p.Extreme = true
 		p.Blocks = [2]int{6, 25}
@@ -393,11 +397,18 @@ func (g *gen) genBlock(bidx int, draining bool) {
 		f := Fault{Kind: k}
 		switch k {
 		case FBankFail:
-			if len(blk.Txs) == 0 {
+			// place the failure inside a tx that is expected to make bank calls
+			var cands []int
+			for ti, t := range blk.Txs {
+				if (t.Note == "valid" || t.Note == "auctioneer") && t.SeqDelta == 0 && t.Msg.Who == t.Actor && t.Msg.Kind != KSend {
+					cands = append(cands, ti)
+				}
+			}
+			if len(cands) == 0 {
 				continue
 			}
-			f.Tx = g.r.Intn(len(blk.Txs))
-			f.K = g.r.Intn(3)
+			f.Tx = cands[g.r.Intn(len(cands))]
+			f.K = g.r.Intn(2)
 		case FOEHit:
 			if faultOf(&blk, FOEAbort) != nil {
 				continue
